@@ -1,5 +1,6 @@
 import VivProofs.TopologyApply
 import VivProofs.TopologyMulti
+import VivProofs.TopologyMultiN
 /-!
 # C06 — a port reads and writes the same store node, for every topology
 
@@ -225,6 +226,97 @@ theorem multi_two_applied_partial (f : Val → Val → Except Err Val) (t n : Tr
           simp only [hc, Option.bind_some] at h
           simp only [Tree.modifyAt, hc, ih c h]
     rw [hmod _ t hnode]
+
+/-- **Several variables → one node, ANY number of leaf ports** (the induction over `n` that
+`multi_two_applied_partial` leaves open, for ports wired by tuple paths): a process with `n ≥ 2`
+leaf ports of distinct names, all wired (by tuple paths, `..` allowed) to the one variable
+`a = init ++ [last]`, returns a plain value for each.  The inverted update carries ALL `n` values
+under `_multi_update`, in topology order, and applying it leaves
+`f(…f(f(old, u₁), u₂)…, u_n)` in `a` and changes nothing else (`apply_single_frame`).
+
+Still PARTIAL with respect to the full C06 statement in one respect only: the other port forms
+(dictionary ports, `_path` dictionaries, glob ports) meeting at one node are proved for two
+variables (`multi_direct_and_glob_applied_partial`) and otherwise covered by the harness oracle and
+the correspondence. -/
+theorem multi_n_applied (f : Val → Val → Except Err Val) (t n : Tree) (outer init : Path)
+    (last : String) (p1 : PortU) (ps : List PortU) (hps : ps ≠ [])
+    (hnd : ((p1 :: ps).map (·.1)).Nodup)
+    (hall : ∀ x ∈ p1 :: ps, x.1 ≠ "*" ∧ normalize (outer ++ x.2.1) = init ++ [last] ∧
+      x.2.2.isDict = false)
+    (hm : "_multi_update" ∉ init ++ [last]) (hnode : t.find (init ++ [last]) = some n)
+    (hn : n.IsVariable) (x : Val)
+    (hfold : foldUpd f n.value ((p1 :: ps).map (·.2.2)) = .ok x) :
+    invertTopology outer (portTopo (p1 :: ps)) (.dict (portUpd (p1 :: ps))) =
+      .ok (nest init (.dict [(last, .dict [("_multi_update", .list ((p1 :: ps).map (·.2.2)))])])) ∧
+    applyUpdate f
+        (nest init (.dict [(last, .dict [("_multi_update", .list ((p1 :: ps).map (·.2.2)))])])) t =
+      .ok (t.modifyAt (fun m => m.setValue x) (init ++ [last])) := by
+  have hus : ∀ u ∈ (p1 :: ps).map (·.2.2), u.isDict = false := by
+    intro u hu
+    obtain ⟨y, hy, rfl⟩ := List.mem_map.mp hu
+    exact (hall y hy).2.2
+  constructor
+  · obtain ⟨hstar1, hq1, hu1⟩ := hall p1 (by simp)
+    have hl1 := lookup_portUpd (p1 :: ps) hnd p1 (by simp)
+    have e1 : invTuple outer p1.2.1 p1.2.2 (.dict []) = .ok (nest init (.dict [(last, p1.2.2)])) := by
+      have := invTuple_single outer p1.2.1 [] p1.2.2 hu1 (by simp [hq1])
+      simpa [nest, hq1, nest_append] using this
+    have hrest := inverse_ports outer init last (portUpd (p1 :: ps)) ps [p1.2.2] (by simp)
+      (by intro w hw; simp at hw; subst hw; exact hu1)
+      (fun y hy => ⟨lookup_portUpd (p1 :: ps) hnd y (by simp [hy]), hall y (by simp [hy])⟩)
+    have hwrap : wrapMulti ([p1.2.2] ++ ps.map (·.2.2)) =
+        .dict [("_multi_update", .list ((p1 :: ps).map (·.2.2)))] := by
+      cases ps with
+      | nil => exact absurd rfl hps
+      | cons y ys => rfl
+    unfold invertTopology
+    simp only [portTopo, List.map_cons]
+    rw [inverse]
+    simp only [Bool.false_and, Bool.false_eq_true, if_false, hstar1, hl1, inverseValue, e1]
+    have h1 : wrapMulti [p1.2.2] = p1.2.2 := rfl
+    rw [h1, hwrap] at hrest
+    simp only [portTopo] at hrest
+    rw [hrest]
+    rfl
+  · have hw := applyUpdate_multi_n f n ((p1 :: ps).map (·.2.2)) x hus (by simp) hn hfold
+    have := applyUpdate_nest_gen f (.dict [("_multi_update", .list ((p1 :: ps).map (·.2.2)))])
+      (init ++ [last]) t n (n.setValue x) hm hnode hw
+    rw [nest_append] at this
+    simp only [nest] at this
+    rw [this]
+    have hmod : ∀ (a : Path) (t : Tree), t.find a = some n →
+        t.modifyAt (fun _ => n.setValue x) a = t.modifyAt (fun m => m.setValue x) a := by
+      intro a
+      induction a with
+      | nil => intro t h; simp [Tree.find] at h; subst h; rfl
+      | cons k rest ih =>
+        intro t h
+        simp only [Tree.find] at h
+        cases hc : AL.get k t.kids with
+        | none => simp [hc] at h
+        | some c =>
+          simp only [hc, Option.bind_some] at h
+          simp only [Tree.modifyAt, hc, ih c h]
+    rw [hmod _ t hnode]
+
+/-- non-vacuity of `multi_n_applied`: three ports `a`, `b`, `c` of a process at the root, all wired
+to `S/x` (one through `T/..`), updates 1, 10, 100 on a value 5 → 116 -/
+example :
+    let t : Tree := .node false .none false
+      [("S", .node false .none false [("x", .node true (.int 5) false [])]),
+       ("T", .node false .none false [])]
+    let ports : List PortU := [("a", ["S", "x"], .int 1), ("b", ["T", "..", "S", "x"], .int 10),
+      ("c", ["S", "x"], .int 100)]
+    (∀ x ∈ ports, x.1 ≠ "*" ∧ normalize ([] ++ x.2.1) = ["S"] ++ ["x"] ∧ x.2.2.isDict = false) ∧
+    (ports.map (·.1)).Nodup ∧
+    (applyUpdate accumulate
+        (nest ["S"] (.dict [("x", .dict [("_multi_update", .list [.int 1, .int 10, .int 100])])])) t).toOption.bind
+      (·.find ["S", "x"]) = some (.node true (.int 116) false []) ∧
+    foldUpd accumulate (.int 5) [.int 1, .int 10, .int 100] = .ok (.int 116) := by
+  refine ⟨?_, by decide, rfl, rfl⟩
+  intro x hx
+  simp only [List.mem_cons, List.mem_nil_iff, or_false] at hx
+  rcases hx with rfl | rfl | rfl <;> refine ⟨by decide, rfl, rfl⟩
 
 /-- non-vacuity (the pre-fix witness F5): ports `a`, `b` of a process at the root, both wired to
 `S/x` (one through `T/..`), updates 1 and 10 on a value 5 → 16 -/
